@@ -200,7 +200,7 @@ var kindsC03 = []wk{
 	{"login", 26}, {"otplogin", 8}, {"recstart", 3}, {"recend", 5}, {"totpvalidate", 8}, {"smsvalidate", 8}, {"smsresend", 2},
 	{"advance", 8}, {"newsess", 3}, {"logout", 2}, {"visit", 10}, {"lock", 6}, {"unlock", 4}, {"reconfirm", 4}, {"confirm", 4},
 	{"o2start", 3}, {"o2cb", 5}, {"register", 3}, {"snip:2fa", 6}, {"snip:recover", 4}, {"snip:otp", 2}, {"snip:oauth", 6},
-	{"snip:register", 3}, {"snip:remember", 3}, {"snip:lockprobe", 8}, {"snip:lockmid2fa", 4}, {"snip:oauthlock", 5},
+	{"snip:register", 3}, {"snip:remember", 3}, {"snip:lockprobe", 8}, {"snip:lockmid2fa", 4}, {"snip:oauthlock", 5}, {"snip:neighbourpw", 6},
 }
 
 var profC03 = profile{
@@ -230,6 +230,21 @@ var profC03 = profile{
 			a := &c.Accounts[i]
 			a.Locked = c.Has("lock") && chance(t, "seedlocked", 25)
 			a.Unconfirmed = c.Has("confirm") && chance(t, "seedunconf", 25)
+		}
+		if n := len(c.Accounts); n >= 2 && chance(t, "blanktwin", 20) {
+			// identifiers are exact byte strings: "carol" and "carol " (a migrated record, a sign-up through another channel) are
+			// two accounts, one healthy, its twin locked / unconfirmed - whatever is looked up for one must be judged for that one
+			i := rapid.IntRange(1, n-1).Draw(t, "twin")
+			pad := pick(t, "pad", " ", " ", "\n", "\t", "  ")
+			c.Accounts[i].PID = c.Accounts[i-1].PID + pad
+			if chance(t, "padfront", 25) {
+				c.Accounts[i].PID = pad + c.Accounts[i-1].PID
+			}
+			if !c.Username {
+				c.Accounts[i].Email = ""
+			}
+			c.Accounts[i].Locked, c.Accounts[i].Unconfirmed = c.Has("lock"), c.Has("confirm")
+			c.Accounts[i-1].Locked, c.Accounts[i-1].Unconfirmed = false, false
 		}
 	},
 }
